@@ -190,26 +190,30 @@ theorem sliceIndices_nonneg (a b c : Option Int) (n : Nat)
       have hw : ¬ w < 0 := by simpa [optLt] using hb
       simp [stopN, hv, hw, cl]
 
-theorem islice_eq_slice (xs : List Int) (a b c : Option Int) (h : sliceListPath a b c = false) :
+theorem islice_eq_slice (xs : List Int) (a b c : Option Int) (h : sliceListPath a b c = false)
+    (hbig : (optGt a maxsize || optGt b maxsize || optGt c maxsize) = false) :
     islice xs a b c = Py.slice xs a b c := by
   unfold sliceListPath at h
   simp only [Bool.or_eq_false_iff] at h
   obtain ⟨⟨hc, ha⟩, hb⟩ := h
   have hstep : 1 ≤ c.getD 1 := optLt_false hc 1 (by omega)
   unfold islice
-  rw [ha, hb, hc]
+  rw [ha, hb, hc, hbig]
   simp only [Bool.or_self, Bool.false_eq_true, ↓reduceIte]
   unfold Py.slice
   rw [sliceIndices_nonneg a b c xs.length ha hb hc, islice_core xs _ _ _ (by omega)]
   rfl
 
 /-- `list(itertools.islice(L, k)) = L[:k]` -/
-theorem islice_take (L : List Int) (k : Nat) : islice L none (some (k : Int)) none = .ok (L.take k) := by
+theorem islice_take (L : List Int) (k : Nat) (hk : (k : Int) ≤ maxsize) :
+    islice L none (some (k : Int)) none = .ok (L.take k) := by
   unfold islice
   have h1 : optLt none 0 = false := rfl
   have h2 : optLt (some (k : Int)) 0 = false := by simp [optLt]
   have h3 : optLt none 1 = false := rfl
-  rw [h1, h2, h3]
+  have h4 : (optGt none maxsize || optGt (some (k : Int)) maxsize || optGt none maxsize) = false := by
+    simp [optGt]; omega
+  rw [h1, h2, h3, h4]
   simp only [Bool.or_self, Bool.false_eq_true, ↓reduceIte]
   congr 1
   apply List.ext_getElem?
@@ -220,5 +224,106 @@ theorem islice_take (L : List Int) (k : Nat) : islice L none (some (k : Int)) no
   rw [e0, e1]
   simp only [allows, Option.map_some, Int.toNat_natCast, Nat.mul_one, Nat.sub_zero, Nat.zero_add,
     List.getElem?_take]
+
+theorem rangeList_bigstep (s e st : Int) (hpos : 0 < st) (hbig : e - s ≤ st) :
+    rangeList s e st = if s < e then [s] else [] := by
+  unfold rangeList
+  rw [if_pos hpos]
+  by_cases hlt : s < e
+  · simp only [hlt, ↓reduceIte]
+    have h1 : 1 ≤ (e - s + st - 1) / st := (Int.le_ediv_iff_mul_le hpos).mpr (by omega)
+    have h2 : (e - s + st - 1) / st < 2 := (Int.ediv_lt_iff_lt_mul hpos).mpr (by omega)
+    have : ((e - s + st - 1) / st).toNat = 1 := by omega
+    rw [this]; simp
+  · simp [hlt]
+
+theorem optGt_clamp (o : Option Int) : optGt (clampMax o) maxsize = false := by
+  cases o with
+  | none => rfl
+  | some v => simp only [clampMax, Option.map_some, optGt]; split <;> simp <;> omega
+
+theorem optLt_clamp (o : Option Int) (k : Int) (hk : k ≤ maxsize) : optLt (clampMax o) k = optLt o k := by
+  cases o with
+  | none => rfl
+  | some v =>
+    simp only [clampMax, Option.map_some, optLt]
+    split
+    · rename_i h; simp; constructor <;> intro <;> omega
+    · rfl
+
+theorem sliceListPath_clamp (a b c : Option Int) :
+    sliceListPath (clampMax a) (clampMax b) (clampMax c) = sliceListPath a b c := by
+  unfold sliceListPath
+  rw [optLt_clamp c 1 (by decide), optLt_clamp a 0 (by decide), optLt_clamp b 0 (by decide)]
+
+theorem clampMax_id (o : Option Int) (h : optGt o maxsize = false) : clampMax o = o := by
+  cases o with
+  | none => rfl
+  | some v =>
+    simp only [optGt, decide_eq_false_iff_not] at h
+    simp [clampMax, h]
+
+
+theorem getD_clamp (o : Option Int) (d : Int) (hd : d ≤ maxsize) :
+    (clampMax o).getD d = if o.getD d > maxsize then maxsize else o.getD d := by
+  cases o with
+  | none => simp only [clampMax, Option.map_none, Option.getD_none]; rw [if_neg (by omega)]
+  | some v => simp [clampMax]
+
+theorem stopN_clamp (b : Option Int) (n : Nat) (hb : optLt b 0 = false) (hn : (n : Int) ≤ maxsize) :
+    stopN ((clampMax b).map Int.toNat) n = stopN (b.map Int.toNat) n := by
+  cases b with
+  | none => rfl
+  | some v =>
+    have hv : ¬ v < 0 := by simpa [optLt] using hb
+    simp only [clampMax, Option.map_some, stopN]
+    unfold maxsize at *
+    split <;> omega
+
+/-- clamping the bounds to `sys.maxsize` does not change a slice of a sequence no longer than `sys.maxsize` -/
+theorem slice_clamp (L : List Int) (a b c : Option Int) (hp : sliceListPath a b c = false)
+    (hlen : (L.length : Int) ≤ maxsize) :
+    Py.slice L (clampMax a) (clampMax b) (clampMax c) = Py.slice L a b c := by
+  unfold sliceListPath at hp
+  simp only [Bool.or_eq_false_iff] at hp
+  obtain ⟨⟨hc, ha⟩, hb⟩ := hp
+  have hc' := (optLt_clamp c 1 (by decide)).trans hc
+  have ha' := (optLt_clamp a 0 (by decide)).trans ha
+  have hb' := (optLt_clamp b 0 (by decide)).trans hb
+  have hstep : 1 ≤ c.getD 1 := optLt_false hc 1 (by omega)
+  have ha0 : 0 ≤ a.getD 0 := optLt_false ha 0 (by omega)
+  unfold Py.slice
+  rw [sliceIndices_nonneg _ _ _ L.length ha' hb' hc', sliceIndices_nonneg a b c L.length ha hb hc]
+  rw [stopN_clamp b L.length hb hlen, getD_clamp a 0 (by decide), getD_clamp c 1 (by decide)]
+  have e1 : min (if a.getD 0 > maxsize then maxsize else a.getD 0).toNat L.length = min (a.getD 0).toNat L.length := by
+    unfold maxsize at *
+    split <;> omega
+  rw [e1]
+  by_cases hbig : c.getD 1 > maxsize
+  · rw [if_pos hbig]
+    show Except.ok _ = Except.ok _
+    congr 2
+    have hs : ((stopN (b.map Int.toNat) L.length : Nat) : Int) ≤ L.length := by
+      unfold stopN; cases b.map Int.toNat <;> simp <;> omega
+    have e3 : ((maxsize.toNat : Nat) : Int) = maxsize := by decide
+    have e4 : (((c.getD 1).toNat : Nat) : Int) = c.getD 1 := by omega
+    rw [e3, e4, rangeList_bigstep _ _ maxsize (by decide) (by omega), rangeList_bigstep _ _ (c.getD 1) (by omega) (by omega)]
+  · rw [if_neg hbig]
+
+
+/-- **`rule[a:b:c]` on the generator path is `L[a:b:c]`**: list path by definition, islice path through the clamp -/
+theorem gen_slice_eq (L : List Int) (a b c : Option Int) (h : fits (.slice a b c) L) :
+    gen (.slice a b c) L = .ofRL (Py.slice L a b c) := by
+  simp only [gen]
+  cases hp : sliceListPath a b c with
+  | true => simp
+  | false =>
+    simp only [Bool.false_eq_true, ↓reduceIte]
+    rw [islice_eq_slice L _ _ _ ((sliceListPath_clamp a b c).trans hp)
+      (by rw [optGt_clamp, optGt_clamp, optGt_clamp]; rfl)]
+    rcases h with hs | hlen
+    · simp only [small, hp, Bool.false_or, Bool.not_eq_true', Bool.or_eq_false_iff] at hs
+      rw [clampMax_id a hs.1.1, clampMax_id b hs.1.2, clampMax_id c hs.2]
+    · rw [slice_clamp L a b c hp hlen]
 
 end Queries
